@@ -1,3 +1,7 @@
 import Bng.Spec.C12
+import Bng.Spec.C12Nexus
+import Bng.Spec.C12Locks
 import Bng.Audit
 #audit_module Bng.Spec.C12
+#audit_module Bng.Spec.C12Nexus
+#audit_module Bng.Spec.C12Locks
